@@ -20,7 +20,7 @@ var intrinsicNames = map[string]bool{
 	"zzIteInt": true, "zzIteInt64": true, "zzIteByte": true, "zzIteBool": true, "zzIteUint16": true, "zzIteStr": true,
 	"zzParam": true, "zzSymbolic": true, "zzDecStr": true, "zzWriteLocked": true, "zzLockDepth": true,
 	"zzLog": true, "zzFail": true, "zzConcretize": true, "zzConcStr": true, "zzGoroutines": true,
-	"zzIsConst": true, "zzStrEq": true,
+	"zzIsConst": true, "zzStrEq": true, "zzDigest": true,
 }
 
 func (p *Path) isIntrinsic(fn *ssa.Function) bool {
@@ -189,6 +189,13 @@ func (p *Path) intrinsic(g *G, fr *Frame, fn *ssa.Function, args []Value) (Value
 			}
 		}
 		return p.tc.Const(64, uint64(n)), stNext
+	case "zzDigest":
+		t, ok := args[1].(*Term)
+		if !ok || !t.IsConst() {
+			p.internal("zzDigest of a non-constant value")
+		}
+		p.reached["digest:"+p.concStr(args[0], "digest name")+"="+strconv.FormatUint(t.val, 10)] = true
+		return nil, stNext
 	case "zzIsConst":
 		t, ok := args[0].(*Term)
 		return p.tc.Bool(ok && t.IsConst()), stNext
@@ -513,11 +520,17 @@ func (p *Path) callBuiltin(g *G, fr *Frame, name string, args []Value, fv *FuncV
 
 var sizeClasses = []int{0, 8, 16, 24, 32, 48, 64, 80, 96, 112, 128, 144, 160, 176, 192, 208, 224, 240, 256, 288, 320, 352, 384, 416, 448, 480, 512, 576, 640, 704, 768, 896, 1024, 1152, 1280, 1408, 1536, 1792, 2048, 2304, 2688, 3072, 3200, 3456, 4096, 4864, 5120, 5376, 6144, 6528, 6784, 6912, 8192, 9472, 9728, 10240, 10880, 12288, 13568, 14336, 16384, 18432, 19072, 20480, 21760, 24576, 27264, 28672, 32768}
 
-func roundupsize(n int) int {
-	if n <= 32768 {
+// roundupsize mirrors runtime.roundupsize of Go 1.22+/1.23: objects with pointers
+// larger than 512 bytes carry an 8-byte malloc header.
+func roundupsize(n int, noscan bool) int {
+	req := n
+	if req <= 32768-8 {
+		if !noscan && req > 512 {
+			req += 8
+		}
 		for _, c := range sizeClasses {
-			if c >= n {
-				return c
+			if c >= req {
+				return c - (req - n)
 			}
 		}
 	}
@@ -525,9 +538,26 @@ func roundupsize(n int) int {
 	return (n + page - 1) / page * page
 }
 
+func hasPointers(t types.Type) bool {
+	switch u := t.Underlying().(type) {
+	case *types.Basic:
+		return u.Kind() == types.String || u.Kind() == types.UnsafePointer
+	case *types.Array:
+		return u.Len() > 0 && hasPointers(u.Elem())
+	case *types.Struct:
+		for i := 0; i < u.NumFields(); i++ {
+			if hasPointers(u.Field(i).Type()) {
+				return true
+			}
+		}
+		return false
+	}
+	return true
+}
+
 var stdSizes = types.StdSizes{WordSize: 8, MaxAlign: 8}
 
-func growCap(oldCap, newLen, elemSize int) int {
+func growCap(oldCap, newLen, elemSize int, noscan bool) int {
 	newcap := oldCap
 	doublecap := newcap + newcap
 	if newLen > doublecap {
@@ -548,7 +578,7 @@ func growCap(oldCap, newLen, elemSize int) int {
 	if elemSize <= 0 {
 		return newcap
 	}
-	mem := roundupsize(newcap * elemSize)
+	mem := roundupsize(newcap*elemSize, noscan)
 	return mem / elemSize
 }
 
@@ -589,7 +619,7 @@ func (p *Path) doAppend(s SliceV, add Value, fv *FuncV) Value {
 		elem = types.Typ[types.Uint8]
 	}
 	es := int(stdSizes.Sizeof(elem))
-	ncap := growCap(s.cp, newLen, es)
+	ncap := growCap(s.cp, newLen, es, !hasPointers(elem))
 	ns := p.makeSlice(elem, newLen, ncap)
 	arr := ns.base.obj.v.(ArrayV)
 	copy(arr.e, p.sliceElems(s))
